@@ -154,6 +154,69 @@ theorem pluralPlan_strict (b : Backend σ F) (f0 f1 : Option F) (i : Nat) (d : F
   | false => rfl
   | true => exact absurd (pluralPlan_omitted b f0 f1 i d p hc) h
 
+/-! ## the steps of `check_message` in closed form -/
+
+/-- the record planned for `msgstr` -/
+def msgstrPlanOf (b : Backend σ F) (msg : Msg σ) (f0 : Option F) : Plan F :=
+  { srcLoc := "msgid".toList, src := f0, dstLoc := "msgstr".toList, dst := stringFmt b msg.msgstr, omittedOk := false }
+
+theorem msgstrPlan_eq (b : Backend σ F) (ctx : Ctx) (msg : Msg σ) (f0 : Option F) (hs : NoCrashOn b msg.msgstr) :
+    msgstrPlan b ctx msg f0 =
+      .ok (if b.truthy msg.msgstr then (stringTags b ctx msg msg.msgstr, [msgstrPlanOf b msg f0]) else ([], [])) := by
+  unfold msgstrPlan
+  by_cases ht : b.truthy msg.msgstr = true
+  · simp only [ht, ↓reduceIte, checkString_eq b ctx msg _ hs]; rfl
+  · simp only [ht, Bool.false_eq_true, ↓reduceIte]
+
+/-- string diagnostics and plans for the `msgstr[i]` -/
+def pluralPart (b : Backend σ F) (ctx : Ctx) (msg : Msg σ) (fl : Flags) (f0 f1 : Option F) : List TagCall × List (Plan F) :=
+  match ctx.preimage with
+  | some (q :: pre) =>
+    if msg.msgstrPlural.any (fun p => b.truthy p.2) then
+      ((sortBy keyLt msg.msgstrPlural).flatMap (fun p => stringTags b ctx msg p.2),
+       (sortBy keyLt msg.msgstrPlural).filterMap (planOf b fl f0 f1 (q :: pre)))
+    else ([], [])
+  | _ => ([], [])
+
+theorem msgstrPluralPlans_eq (b : Backend σ F) (ctx : Ctx) (msg : Msg σ) (fl : Flags) (f0 f1 : Option F)
+    (hs : ∀ p ∈ msg.msgstrPlural, NoCrashOn b p.2) :
+    msgstrPluralPlans b ctx msg fl f0 f1 = .ok (pluralPart b ctx msg fl f0 f1) := by
+  have hs' : ∀ p ∈ sortBy keyLt msg.msgstrPlural, NoCrashOn b p.2 := fun p hp => hs p ((mem_sortBy _ _ p).1 hp)
+  unfold msgstrPluralPlans pluralPart
+  cases ctx.preimage with
+  | none => rfl
+  | some l =>
+    cases l with
+    | nil => rfl
+    | cons q pre =>
+      simp only
+      by_cases hany : msg.msgstrPlural.any (fun p => b.truthy p.2) = true
+      · simp only [hany, ↓reduceIte, pluralPlans_eq b ctx msg fl f0 f1 (q :: pre) _ hs']
+      · simp only [hany, Bool.false_eq_true, ↓reduceIte]
+
+/-- all comparisons `check_message` plans for the translations -/
+def allPlans (b : Backend σ F) (ctx : Ctx) (msg : Msg σ) (fl : Flags) (f0 f1 : Option F) : List (Plan F) :=
+  (if b.truthy msg.msgstr then [msgstrPlanOf b msg f0] else []) ++ (pluralPart b ctx msg fl f0 f1).2
+
+/-- **the translation part of `check_message`**: the string diagnostics of `msgstr`, then of every `msgstr[i]` in index
+    order, then the planned comparisons in that order. -/
+theorem checkTranslations_eq (b : Backend σ F) (ctx : Ctx) (msg : Msg σ) (fl : Flags) (f0 f1 : Option F)
+    (hf : fl.fuzzy = false) (he : ctx.hasEncoding = true)
+    (hs : NoCrashOn b msg.msgstr) (hforms : ∀ p ∈ msg.msgstrPlural, NoCrashOn b p.2)
+    (hargs : ∀ d ∈ allPlans b ctx msg fl f0 f1, PlanOk b msg.pfx d) :
+    checkTranslations b ctx msg fl f0 f1 = .ok (
+      (if b.truthy msg.msgstr then stringTags b ctx msg msg.msgstr else []) ++ (pluralPart b ctx msg fl f0 f1).1 ++
+      (allPlans b ctx msg fl f0 f1).flatMap (planTags b msg.pfx)) := by
+  unfold checkTranslations
+  simp only [hf, he, Bool.false_eq_true, ↓reduceIte, Bool.not_true, msgstrPlan_eq b ctx msg f0 hs,
+    msgstrPluralPlans_eq b ctx msg fl f0 f1 hforms]
+  unfold allPlans at hargs ⊢
+  by_cases ht : b.truthy msg.msgstr = true
+  · simp only [ht, ↓reduceIte] at hargs ⊢
+    rw [runPlans_eq b msg.pfx _ hargs]
+  · simp only [ht, Bool.false_eq_true, ↓reduceIte] at hargs ⊢
+    rw [runPlans_eq b msg.pfx _ hargs]
+
 /-! ## `check_message` for a translated message outside templates -/
 
 /-- the domain of the property: a PO file (not a template) with a usable charset, message not fuzzy -/
@@ -171,46 +234,37 @@ theorem msgidFmt_eq (b : Backend σ F) (ctx : Ctx) (msg : Msg σ) (s : σ) (hn :
   simp only [hn, Bool.false_eq_true, ↓reduceIte]
   cases b.parse s <;> rfl
 
-/-- **non-plural message**: `msgid` valid ⇒ exactly `check_msgids`, the diagnostics of `msgstr` as a string, and the
-    comparison of `msgstr` with `msgid`, never tolerant. -/
-theorem checkMessage_plain (b : Backend σ F) (ctx : Ctx) (msg : Msg σ) (fl : Flags) (hdom : InDomain ctx fl)
-    (hpl : msg.msgidPlural = none) (hforms : msg.msgstrPlural = []) (f0 : F) (h0 : b.parse msg.msgid = .ok f0)
-    (hs : NoCrashOn b msg.msgstr)
-    (hargs : ∀ f, b.parse msg.msgstr = .ok f → ∃ t, b.checkArgs msg.pfx "msgid".toList f0 "msgstr".toList f false = .ok t) :
+/-- **a message in the domain whose `msgid` (and `msgid_plural`) are valid**: `check_message` emits exactly `check_msgids`, the string
+    diagnostics of the translations, and the planned comparisons. `f1 = none` for a message without `msgid_plural`. -/
+theorem checkMessage_eq (b : Backend σ F) (ctx : Ctx) (msg : Msg σ) (fl : Flags) (hdom : InDomain ctx fl)
+    (f0 : F) (h0 : b.parse msg.msgid = .ok f0) (f1 : Option F)
+    (h1 : match msg.msgidPlural with | none => f1 = none | some sp => ∃ g, b.parse sp = .ok g ∧ f1 = some g)
+    (hs : NoCrashOn b msg.msgstr) (hforms : ∀ p ∈ msg.msgstrPlural, NoCrashOn b p.2)
+    (hargs : ∀ d ∈ allPlans b ctx msg fl (some f0) f1, PlanOk b msg.pfx d) :
     checkMessage b ctx msg fl = .ok (b.checkMsgids msg.repr (some f0) ++
-      (if b.truthy msg.msgstr then
-        stringTags b ctx msg msg.msgstr ++
-          planTags b msg.pfx ⟨"msgid".toList, some f0, "msgstr".toList, stringFmt b msg.msgstr, false⟩
-       else [])) := by
+      ((if b.truthy msg.msgstr then stringTags b ctx msg msg.msgstr else []) ++ (pluralPart b ctx msg fl (some f0) f1).1 ++
+       (allPlans b ctx msg fl (some f0) f1).flatMap (planTags b msg.pfx))) := by
   unfold checkMessage
   rw [msgidFmt_eq b ctx msg _ hdom.notTemplate, h0]
-  simp only [hpl, hdom.notTemplate]
-  unfold checkTranslations
-  simp only [hdom.notFuzzy, hdom.encoding, hforms, List.any_nil, Bool.false_eq_true, ↓reduceIte, Bool.not_true]
-  generalize "msgid".toList = sl at hargs ⊢
-  generalize "msgstr".toList = dl at hargs ⊢
-  have hp : ∀ d ∈ [(⟨sl, some f0, dl, stringFmt b msg.msgstr, false⟩ : Plan F)], PlanOk b msg.pfx d := by
-    intro d hd src dst hsrc hdst
-    simp only [List.mem_singleton] at hd
-    subst hd
-    simp only [Option.some.injEq] at hsrc
-    subst hsrc
-    unfold stringFmt at hdst
-    cases hp : b.parse msg.msgstr with
-    | ok f => rw [hp] at hdst; simp only [Option.some.injEq] at hdst; subst hdst; exact hargs f hp
-    | own => rw [hp] at hdst; cases hdst
-    | crash e => rw [hp] at hdst; cases hdst
-  have hrun := runPlans_eq b msg.pfx _ hp
-  by_cases ht : b.truthy msg.msgstr = true
-  · simp only [ht, ↓reduceIte, checkString_eq b ctx msg _ hs]
-    cases ctx.preimage with
-    | none => simp [hrun]
-    | some l => cases l <;> simp [hrun]
-  · simp only [Bool.not_eq_true] at ht
-    simp only [ht, Bool.false_eq_true, ↓reduceIte]
-    cases ctx.preimage with
-    | none => simp [runPlans]
-    | some l => cases l <;> simp [runPlans]
+  simp only
+  have hpm : pluralMsgidFmt b ctx msg = .ok (some ([], f1)) := by
+    unfold pluralMsgidFmt
+    cases hpl : msg.msgidPlural with
+    | none => rw [hpl] at h1; simp only at h1; subst h1; rfl
+    | some sp =>
+      rw [hpl] at h1
+      obtain ⟨g, hg, rfl⟩ := h1
+      simp only
+      rw [msgidFmt_eq b ctx msg _ hdom.notTemplate, hg]
+  rw [hpm]
+  simp only
+  have htm : templateArgs b ctx msg (some f0) f1 = .ok [] := by
+    unfold templateArgs
+    rw [hdom.notTemplate]
+  rw [htm]
+  simp only
+  rw [checkTranslations_eq b ctx msg fl (some f0) f1 hdom.notFuzzy hdom.encoding hs hforms hargs]
+  simp
 
 /-- **an invalid `msgid`**: nothing is reported (reporting errors against `msgstr` is not worth the trouble) -/
 theorem checkMessage_invalid_msgid (b : Backend σ F) (ctx : Ctx) (msg : Msg σ) (fl : Flags) (hn : ctx.isTemplate = false)
@@ -218,28 +272,161 @@ theorem checkMessage_invalid_msgid (b : Backend σ F) (ctx : Ctx) (msg : Msg σ)
   unfold checkMessage
   rw [msgidFmt_eq b ctx msg _ hn, h0]
 
-/-- **plural message**: `msgid`, `msgid_plural` valid, `msgstr` empty, some `msgstr[i]` non-empty, `check_plurals` left a
-    preimage ⇒ exactly `check_msgids`, the string diagnostics of every `msgstr[i]` in index order, then the planned
-    comparisons in index order. -/
-theorem checkMessage_plural (b : Backend σ F) (ctx : Ctx) (msg : Msg σ) (fl : Flags) (hdom : InDomain ctx fl)
-    (sp : σ) (hpl : msg.msgidPlural = some sp) (f0 f1 : F) (h0 : b.parse msg.msgid = .ok f0) (h1 : b.parse sp = .ok f1)
-    (hmsgstr : b.truthy msg.msgstr = false) (hany : msg.msgstrPlural.any (fun p => b.truthy p.2) = true)
-    (q : Int × List Nat) (pre : CheckPlurals.Preimage) (hpre : ctx.preimage = some (q :: pre))
-    (hs : ∀ p ∈ msg.msgstrPlural, NoCrashOn b p.2)
-    (hargs : ∀ d ∈ (sortBy keyLt msg.msgstrPlural).filterMap (planOf b fl (some f0) (some f1) (q :: pre)), PlanOk b msg.pfx d) :
-    checkMessage b ctx msg fl = .ok (b.checkMsgids msg.repr (some f0) ++
-      ((sortBy keyLt msg.msgstrPlural).flatMap (fun p => stringTags b ctx msg p.2) ++
-       ((sortBy keyLt msg.msgstrPlural).filterMap (planOf b fl (some f0) (some f1) (q :: pre))).flatMap (planTags b msg.pfx))) := by
+/-- a message without plural forms plans at most the comparison of `msgstr` with `msgid`, never tolerant -/
+theorem allPlans_plain (b : Backend σ F) (ctx : Ctx) (msg : Msg σ) (fl : Flags) (f0 f1 : Option F) (hforms : msg.msgstrPlural = []) :
+    allPlans b ctx msg fl f0 f1 = (if b.truthy msg.msgstr then [msgstrPlanOf b msg f0] else []) ∧
+    (pluralPart b ctx msg fl f0 f1).1 = [] := by
+  unfold allPlans pluralPart
+  rw [hforms]
+  cases ctx.preimage with
+  | none => simp
+  | some l => cases l <;> simp
+
+/-- every planned comparison for a `msgstr[i]` is `pluralPlan` of a parsed `msgstr[i]` and the filtered preimage of `i` -/
+theorem mem_pluralPart (b : Backend σ F) (ctx : Ctx) (msg : Msg σ) (fl : Flags) (f0 f1 : Option F) (d : Plan F)
+    (hd : d ∈ (pluralPart b ctx msg fl f0 f1).2) :
+    ∃ pre i s g pi, ctx.preimage = some pre ∧ (i, s) ∈ msg.msgstrPlural ∧ b.parse s = .ok g ∧ preimageGet pre i = some pi ∧
+      d = pluralPlan b f0 f1 i g (pi.filter fl.inRange) := by
+  unfold pluralPart at hd
+  cases hpre : ctx.preimage with
+  | none => rw [hpre] at hd; cases hd
+  | some l =>
+    rw [hpre] at hd
+    cases l with
+    | nil => cases hd
+    | cons q pre =>
+      simp only at hd
+      split at hd
+      · obtain ⟨p, hp, hpd⟩ := List.mem_filterMap.1 hd
+        rw [mem_sortBy] at hp
+        unfold planOf at hpd
+        cases hf : stringFmt b p.2 with
+        | none => rw [hf] at hpd; cases hpd
+        | some g =>
+          cases hpi : preimageGet (q :: pre) p.1 with
+          | none => rw [hf, hpi] at hpd; cases hpd
+          | some pi =>
+            rw [hf, hpi] at hpd
+            simp only [Option.some.injEq] at hpd
+            refine ⟨q :: pre, p.1, p.2, g, pi, rfl, hp, ?_, hpi, hpd.symm⟩
+            unfold stringFmt at hf
+            cases hp' : b.parse p.2 with
+            | ok g' => rw [hp'] at hf; simp only [Option.some.injEq] at hf; rw [hf]
+            | own => rw [hp'] at hf; cases hf
+            | crash e => rw [hp'] at hf; cases hf
+      · cases hd
+
+/-! ## `check_message` never raises, for any context, when the parser and `check_args` do not -/
+
+/-- the string neither crashes the parser nor parses to something outside `Good` -/
+def StrOk (b : Backend σ F) (Good : F → Prop) (s : σ) : Prop :=
+  NoCrashOn b s ∧ ∀ f, b.parse s = .ok f → Good f
+
+structure MsgOk (b : Backend σ F) (Good : F → Prop) (msg : Msg σ) : Prop where
+  msgid : StrOk b Good msg.msgid
+  plural : ∀ s, msg.msgidPlural = some s → StrOk b Good s
+  msgstr : StrOk b Good msg.msgstr
+  forms : ∀ p ∈ msg.msgstrPlural, StrOk b Good p.2
+
+/-- `check_args` does not raise on `Good` format objects -/
+def ArgsTotal (b : Backend σ F) (Good : F → Prop) : Prop :=
+  ∀ pfx srcLoc f dstLoc g ok, Good f → Good g → ∃ t, b.checkArgs pfx srcLoc f dstLoc g ok = .ok t
+
+def GoodOpt (Good : F → Prop) (o : Option F) : Prop := ∀ f, o = some f → Good f
+
+theorem stringFmt_good (b : Backend σ F) (Good : F → Prop) (s : σ) (h : StrOk b Good s) : GoodOpt Good (stringFmt b s) := by
+  intro f hf
+  unfold stringFmt at hf
+  cases hp : b.parse s with
+  | ok g => rw [hp] at hf; simp only [Option.some.injEq] at hf; subst hf; exact h.2 g hp
+  | own => rw [hp] at hf; cases hf
+  | crash e => rw [hp] at hf; cases hf
+
+theorem msgidFmt_total (b : Backend σ F) (Good : F → Prop) (ctx : Ctx) (msg : Msg σ) (s : σ) (h : StrOk b Good s) :
+    msgidFmt b ctx msg s = .ok none ∨ ∃ tg fo, msgidFmt b ctx msg s = .ok (some (tg, fo)) ∧ GoodOpt Good fo := by
+  unfold msgidFmt
+  cases ht : ctx.isTemplate with
+  | true =>
+    simp only [↓reduceIte, checkString_eq b ctx msg s h.1]
+    exact Or.inr ⟨_, _, rfl, stringFmt_good b Good s h⟩
+  | false =>
+    simp only [Bool.false_eq_true, ↓reduceIte]
+    cases hp : b.parse s with
+    | ok f => exact Or.inr ⟨[], some f, rfl, fun g hg => by cases hg; exact h.2 f hp⟩
+    | own => exact Or.inl rfl
+    | crash e => exact absurd hp (h.1 e)
+
+theorem planOk_of_good (b : Backend σ F) (Good : F → Prop) (ha : ArgsTotal b Good) (pfx : Extra) (d : Plan F)
+    (hs : GoodOpt Good d.src) (hd : GoodOpt Good d.dst) : PlanOk b pfx d := by
+  intro src dst hsrc hdst
+  exact ha pfx d.srcLoc src d.dstLoc dst d.omittedOk (hs src hsrc) (hd dst hdst)
+
+theorem allPlans_ok (b : Backend σ F) (Good : F → Prop) (ha : ArgsTotal b Good) (ctx : Ctx) (msg : Msg σ) (fl : Flags)
+    (hm : MsgOk b Good msg) (f0 f1 : Option F) (h0 : GoodOpt Good f0) (h1 : GoodOpt Good f1) :
+    ∀ d ∈ allPlans b ctx msg fl f0 f1, PlanOk b msg.pfx d := by
+  intro d hd
+  unfold allPlans at hd
+  rcases List.mem_append.1 hd with h | h
+  · split at h
+    · simp only [List.mem_singleton] at h
+      subst h
+      exact planOk_of_good b Good ha _ _ h0 (stringFmt_good b Good _ hm.msgstr)
+    · cases h
+  · obtain ⟨pre, i, s, g, pi, _, hmem, hg, _, rfl⟩ := mem_pluralPart b ctx msg fl f0 f1 d h
+    have hgood : Good g := (hm.forms (i, s) hmem).2 g hg
+    apply planOk_of_good b Good ha
+    · by_cases hp : pi.filter fl.inRange = [1]
+      · rw [((pluralPlan_src b f0 f1 i g _).1 hp).1]; exact h0
+      · rw [((pluralPlan_src b f0 f1 i g _).2 hp).1]; exact h1
+    · rw [(pluralPlan_dst b f0 f1 i g _).1]
+      intro f hf; cases hf; exact hgood
+
+theorem checkTranslations_total (b : Backend σ F) (Good : F → Prop) (ha : ArgsTotal b Good) (ctx : Ctx) (msg : Msg σ) (fl : Flags)
+    (hm : MsgOk b Good msg) (f0 f1 : Option F) (h0 : GoodOpt Good f0) (h1 : GoodOpt Good f1) :
+    ∃ t, checkTranslations b ctx msg fl f0 f1 = .ok t := by
+  by_cases hf : fl.fuzzy = true
+  · exact ⟨[], by unfold checkTranslations; simp [hf]⟩
+  · by_cases he : ctx.hasEncoding = true
+    · simp only [Bool.not_eq_true] at hf
+      exact ⟨_, checkTranslations_eq b ctx msg fl f0 f1 hf he hm.msgstr.1 (fun p hp => (hm.forms p hp).1)
+        (allPlans_ok b Good ha ctx msg fl hm f0 f1 h0 h1)⟩
+    · exact ⟨[], by unfold checkTranslations; simp [hf, he]⟩
+
+/-- **`check_message` never raises** when the parser raises only its own errors on the message's strings and
+    `check_args` does not raise on what it parses to. -/
+theorem checkMessage_total (b : Backend σ F) (Good : F → Prop) (ha : ArgsTotal b Good) (ctx : Ctx) (msg : Msg σ) (fl : Flags)
+    (hm : MsgOk b Good msg) : ∃ t, checkMessage b ctx msg fl = .ok t := by
   unfold checkMessage
-  rw [msgidFmt_eq b ctx msg _ hdom.notTemplate, h0]
-  simp only [hpl]
-  rw [msgidFmt_eq b ctx msg _ hdom.notTemplate, h1]
-  simp only [hdom.notTemplate]
-  unfold checkTranslations
-  simp only [hdom.notFuzzy, hdom.encoding, hmsgstr, hany, hpre, Bool.false_eq_true, ↓reduceIte, Bool.not_true]
-  have hs' : ∀ p ∈ sortBy keyLt msg.msgstrPlural, NoCrashOn b p.2 := fun p hp => hs p ((mem_sortBy _ _ p).1 hp)
-  rw [pluralPlans_eq b ctx msg fl (some f0) (some f1) (q :: pre) _ hs']
-  simp only [List.nil_append]
-  rw [runPlans_eq b msg.pfx _ hargs]
+  rcases msgidFmt_total b Good ctx msg msg.msgid hm.msgid with h | ⟨tg0, f0, h, hg0⟩
+  · rw [h]; exact ⟨[], rfl⟩
+  · rw [h]
+    simp only
+    have hsecond : pluralMsgidFmt b ctx msg = .ok none ∨
+        ∃ tg1 f1, pluralMsgidFmt b ctx msg = .ok (some (tg1, f1)) ∧ GoodOpt Good f1 := by
+      unfold pluralMsgidFmt
+      cases hpl : msg.msgidPlural with
+      | none => exact Or.inr ⟨[], none, rfl, fun f hf => by cases hf⟩
+      | some s => exact msgidFmt_total b Good ctx msg s (hm.plural s hpl)
+    rcases hsecond with h2 | ⟨tg1, f1, h2, hg1⟩
+    · rw [h2]; exact ⟨[], rfl⟩
+    · rw [h2]
+      simp only
+      have htmpl : ∃ tg2, templateArgs b ctx msg f0 f1 = .ok tg2 := by
+        unfold templateArgs
+        cases ctx.isTemplate with
+        | false => exact ⟨[], rfl⟩
+        | true =>
+          cases f0 with
+          | none => exact ⟨[], rfl⟩
+          | some a =>
+            cases f1 with
+            | none => exact ⟨[], rfl⟩
+            | some c => exact ha _ _ c _ a true (hg1 c rfl) (hg0 a rfl)
+      obtain ⟨tg2, h3⟩ := htmpl
+      rw [h3]
+      simp only
+      obtain ⟨tg4, h4⟩ := checkTranslations_total b Good ha ctx msg fl hm f0 f1 hg0 hg1
+      rw [h4]
+      exact ⟨_, rfl⟩
 
 end I18n.FmtCheck
